@@ -825,7 +825,8 @@ class C20:
                 # providers with different views were composed; only element-wise fidelity is meaningful
                 ids_a = ids_b
             if ids_b != ids_a[:len(ids_b)]:
-                reorder = self.same_block_reorder(args[0], ids_b) or self.permuted_in_block(args[0], ids_b, ids_a)
+                reorder = self.same_block_reorder(args[0], ids_b) or self.permuted_in_block(args[0], ids_b, ids_a) or \
+                    self.missing_share_block(ids_a, ids_b, kwargs.get('after_txid'))
                 w.violation('cache_infidelity', dict(sig, cause='same_block_cache_order' if reorder else 'other'),
                             'replayed history %s is no prefix of the stored answer %s' %
                             ([x[:8] for x in ids_b], [x[:8] for x in ids_a]))
@@ -843,6 +844,12 @@ class C20:
                 if t.block_height and t.confirmations and not self.lied and not dup_first and \
                         t.block_height <= believed:
                     cause = 'after_txid_not_in_cache' if kwargs.get('after_txid') and not b else 'other'
+                    if kwargs.get('after_txid') in self.chain.txs and \
+                            self.chain.txs[kwargs['after_txid']].height == t.block_height:
+                        cause = 'same_block_cache_order'    # cut off by the cache's within-block order
+                    elif b and self.missing_share_block([x['txid'] for x in a], [x['txid'] for x in b],
+                                                        kwargs.get('after_txid')):
+                        cause = 'same_block_cache_order'
                     w.violation('cache_infidelity', dict(sig, cause=cause),
                                 'replay from cache lost confirmed transaction %s although the call succeeded' %
                                 t.txid[:16])
@@ -869,6 +876,18 @@ class C20:
             return False
         hs = [hmap[i] for i in ids_b]
         return all(a <= b for a, b in zip(hs, hs[1:]))
+
+    def missing_share_block(self, ids_a, ids_b, after_txid):
+        """Every transaction the cache dropped sits in the same block as the after_txid transaction or as a
+        transaction it did serve: the cache's within-block order (list position, not block index) cut it off."""
+        tx = self.chain.txs
+        missing = [i for i in ids_a if i not in ids_b]
+        if not missing or any(i not in tx for i in ids_a + ids_b) or set(ids_b) - set(ids_a):
+            return False
+        heights = {tx[i].height for i in ids_b}
+        if after_txid and after_txid in tx:
+            heights.add(tx[after_txid].height)
+        return all(tx[i].height in heights and tx[i].height is not None for i in missing)
 
     def same_block_reorder(self, address, ids):
         """True when `ids` is the address's true history up to a cut, except for the order (and, at the cut, the
